@@ -372,10 +372,6 @@ pub fn resolve(c: &Case) -> Resolved {
         let mut e = bind(&f.expr, &sheets);
         if c.clean {
             e = e.map(&mut |x| match x {
-                Expr::Array(rows) => {
-                    excluded.push("array/altered".into());
-                    Expr::Paren(Box::new(rows[0][0].clone()))
-                }
                 Expr::At(inner) => {
                     excluded.push("at/dropped".into());
                     *inner
@@ -388,7 +384,7 @@ pub fn resolve(c: &Case) -> Resolved {
     let part = |p: &(u16, Area)| (pick_idx(p.0, n), p.1.clone());
     let mut names: Vec<(usize, Vec<(usize, Area)>)> = Vec::new();
     for d in &c.names {
-        let mut parts: Vec<(usize, Area)> = d.parts.iter().map(part).collect();
+        let parts: Vec<(usize, Area)> = d.parts.iter().map(part).collect();
         let holder = if d.workbook_level {
             WORKBOOK
         } else if d.holder_is_target {
@@ -396,10 +392,6 @@ pub fn resolve(c: &Case) -> Resolved {
         } else {
             pick_idx(d.holder, n)
         };
-        if c.clean && punct_multi(&sheets, &parts) {
-            excluded.push("defined-name-multi-on-punct-sheet/not-adjusted".into());
-            parts.truncate(1);
-        }
         names.push((holder, parts));
     }
     let mut series: Vec<(usize, Vec<(usize, Area)>)> = Vec::new();
@@ -621,7 +613,9 @@ pub fn parse_address_list(s: &str, split: bool) -> Result<Vec<(String, Option<Ar
             out.push((String::new(), None));
             continue;
         }
-        let (q, rest) = split_qualifier(&p);
+        // an unquoted qualifier may contain apostrophes (Address::get_address quotes only
+        // names with blanks): split at the last `!` then
+        let (q, rest) = if p.starts_with('\'') { split_qualifier(&p) } else { p.rfind('!').map(|i| (&p[..=i], &p[i + 1..])).unwrap_or(("", p.as_str())) };
         let sheet = if q.is_empty() {
             String::new()
         } else {
